@@ -68,7 +68,21 @@ if mode:                                               # selftest only: make the
         prof.clear()
         prof.update(ordered)
         return prof, counts, feats
-    cp.ClassProfiler.profile_classes = profile_classes
+    if mode in ("order", "drop"):
+        cp.ClassProfiler.profile_classes = profile_classes
+    if mode == "shapeset":                             # surviving shapes re-listed from a set difference (hash order)
+        import shexer.core.shexing.class_shexer as cs
+        def _remove_shapes_without_statements(self, shape_names_to_remove):
+            by_name = dict((a_shape.name, a_shape) for a_shape in self._shapes_list)
+            self._shapes_list = [by_name[n] for n in (by_name.keys() - set(shape_names_to_remove))]
+        cs.ClassShexer._remove_shapes_without_statements = _remove_shapes_without_statements
+    if mode == "classset":                             # a node's class list rebuilt from a set when a class is repeated
+        import shexer.core.instances.annotators.strategy_mode.base_strategy_mode as bsm
+        def annotation_post_parsing(self):
+            for a_node, classes in self._instances_dict.items():
+                if isinstance(classes, list) and len(set(classes)) != len(classes):
+                    self._instances_dict[a_node] = list(set(classes))
+        bsm.BaseStrategyMode.annotation_post_parsing = annotation_post_parsing
 def on_alarm(signum, frame):
     raise TimeoutError("wall-clock guard")
 signal.signal(signal.SIGALRM, on_alarm)
@@ -81,7 +95,7 @@ try:
         if inp["how"] == "raw":
             kw["raw_graph"] = job["data"]
         else:
-            path = os.path.join(tmp, "g." + ("nt" if inp["format"] == "nt" else "ttl"))
+            path = os.path.join(tmp, "g." + {"nt": "nt", "tsv_spo": "tsv"}.get(inp["format"], "ttl"))
             with open(path, "w") as fh:
                 fh.write(job["data"])
             kw["graph_file_input"] = path
@@ -123,7 +137,7 @@ def _collide(k):
 
 
 def _categories():
-    """[(category, cfg, namespaces, input, needs IRI-only graph, threshold)]"""
+    """[(category, cfg, namespaces, input, needs IRI-only graph, threshold, tweak of the graph)]"""
     M, S, G = U.lib()
     ns = collections.OrderedDict(G.NAMESPACES)
     raw_nt, file_nt = {"how": "raw", "format": "nt"}, {"how": "file", "format": "nt"}
@@ -161,9 +175,26 @@ def _categories():
         ("input-turtle-targets", {"target_classes": [A, B], "examples_mode": "all"}, ns, file_ttl, True, 0),
         ("input-turtle-shape-map", {"shape_map_raw": sm_focus_p}, ns, raw_ttl, True, 0),
     ]
+    out = [c + (None,) for c in out]
+    # a shape that reaches the shexer with zero constraints (removed there; the survivors are re-listed): a shape-map node without
+    # outgoing triples, a selector without solutions, a threshold that empties a label whose two nodes share no property
+    five = "{FOCUS a ex:A}@ex:L1\n{FOCUS a ex:B}@ex:L2\n{FOCUS a ex:C}@ex:L3\n{FOCUS ex:p0 _}@ex:L4\n{FOCUS o:p1 _}@ex:L5\n"
+    ghost = five + "<http://ex.org/ghost>@ex:Ghost\n{FOCUS a ex:Nothing}@ex:Void"
+    ghost_iri = ghost.replace("@ex:", "@<%s" % U.ALT_SHAPES_NS).replace("\n", ">\n") + ">"
+    mixed = five + "<http://ex.org/g1>@ex:Mixed\n<http://ex.org/g2>@ex:Mixed"
+    out += [("shape-map-ghost", {"shape_map_raw": ghost}, ns, raw_nt, True, 0, "ghost"),
+            ("shape-map-ghost-inverse", {"shape_map_raw": ghost, "inverse_paths": True}, ns, file_nt, True, 0.5, None),
+            ("shape-map-ghost-iri-labels", {"shape_map_raw": ghost_iri}, ns, raw_nt, True, 0, "ghost"),
+            ("shape-map-emptied-by-threshold", {"shape_map_raw": mixed}, ns, raw_nt, True, 1, "mixed"),
+            ("shape-map-emptied-and-all-classes", {"shape_map_raw": mixed, "all_classes_mode": True}, ns, raw_nt, True, 1, "mixed"),
+            # a type triple stated twice for a subject with >= 2 classes (native reader; a repeated line is a valid document)
+            ("repeated-type-all-classes", allc, ns, raw_nt, False, 0, "repeat"),
+            ("repeated-type-targets", {"target_classes": [A, B, G.EX + "C"]}, ns, file_nt, False, 0, "repeat"),
+            ("repeated-type-inverse", dict(allc, inverse_paths=True), ns, raw_nt, False, 0.5, "repeat"),
+            ("repeated-type-tsv", allc, ns, {"how": "raw", "format": "tsv_spo"}, False, 0, "repeat")]
     for k in range(5):
-        out.append(("ns-collide-%d" % k, allc if k % 2 == 0 else {"target_classes": [A, B]}, _collide(k), raw_nt, False, 0))
-    out.append(("input-turtle-ns-collide-4", allc, _collide(4), raw_ttl, True, 0))
+        out.append(("ns-collide-%d" % k, allc if k % 2 == 0 else {"target_classes": [A, B]}, _collide(k), raw_nt, False, 0, None))
+    out.append(("input-turtle-ns-collide-4", allc, _collide(4), raw_ttl, True, 0, None))
     return out
 
 
@@ -180,16 +211,36 @@ def gen_cases(tier, seed):
     rng = random.Random("C19|%s|%s" % (tier, seed))
     per_cat, _ = SIZES[tier]
     cases = []
-    for ci, (cat, cfg, ns, inp, iri_only, t) in enumerate(_categories()):
+    for ci, (cat, cfg, ns, inp, iri_only, t, tweak) in enumerate(_categories()):
         for gi in range(per_cat):
             pb = 0.0 if iri_only else (0.35 if "bnodes" in cat else (0.2 if (ci + gi) % 2 else 0.0))
             T = U.rand_graph(rng, n_nodes=rng.randint(5, 9), n_triples=rng.randint(10, 24), n_classes=3, n_props=rng.randint(3, 4),
                              p_bnode=pb)
             if not any(o == M.IRI(G.CLASS_A) for (_, p, o) in T if p == M.RDF_TYPE):
                 T.append(M.Triple(M.IRI(G.EX + "n0"), M.RDF_TYPE, M.IRI(G.CLASS_A)))
-            nt = U.to_nt(T)
-            cases.append({"cat": cat, "cfg": cfg, "ns": list(ns.items()), "input": inp, "t": t,
-                          "data": nt if inp["format"] == "nt" else _turtle(nt), "perturb_step": 1500})
+            if tweak == "ghost":                         # the node of the shape map occurs, but only as an object
+                T.insert(len(T) // 2, M.Triple(T[0][0], G.EX + "sees", M.IRI(G.EX + "ghost")))
+            if tweak == "mixed":                         # two nodes without a common property: nothing reaches t = 1
+                T += [M.Triple(M.IRI(G.EX + "g1"), G.EX + "only1", M.Lit("x")), M.Triple(M.IRI(G.EX + "g2"), G.EX + "only2", M.Lit("y"))]
+                rng.shuffle(T)
+            if tweak == "repeat":                        # nodes with three classes, one or two of their type triples stated twice
+                subjects = U.dedup([s for (s, p, o) in T if p == M.RDF_TYPE]) + [M.IRI(G.EX + "r%d" % gi)]
+                for x in subjects[-3:]:
+                    for C in ("A", "B", "C"):
+                        T.append(M.Triple(x, M.RDF_TYPE, M.IRI(G.EX + C)))
+                T = U.dedup(T)
+                rng.shuffle(T)
+                for x in subjects[-3:]:
+                    mine = [tr for tr in T if tr[0] == x and tr[1] == M.RDF_TYPE]
+                    for tr in rng.sample(mine, rng.randint(1, 2)):
+                        T.insert(rng.randint(0, len(T)), tr)
+            if inp["format"] == "nt":
+                data = U.to_nt(T)
+            elif inp["format"] == "tsv_spo":
+                data = "".join("%s\t<%s>\t%s\n" % (M.node_to_nt(s_), p_, M.node_to_nt(o_)) for (s_, p_, o_) in T)
+            else:
+                data = _turtle(U.to_nt(T))
+            cases.append({"cat": cat, "cfg": cfg, "ns": list(ns.items()), "input": inp, "t": t, "data": data, "perturb_step": 1500})
     return cases
 
 
@@ -347,7 +398,9 @@ RULE = ("one evaluation = one extraction (fresh Shaper, ShExC or SHACL) in a fre
         "Processes differ in PYTHONHASHSEED and in the garbage allocated before importing sheXer. Categories: target classes, all "
         "classes (with blank nodes), shape maps ({FOCUS a ex:A}, two labels, SPARQL selector, with all_classes_mode), inverse paths, "
         "examples_mode='all', detect_minimal_iri, instances_cap, namespaces_to_ignore, OR statements, inference switches, empty "
-        "namespaces, input as raw N-Triples / N-Triples file / raw Turtle / Turtle file (rdflib), user namespaces taking 0..4 of the "
+        "namespaces, shape maps with a label that reaches the shexer without constraints (node without triples, selector without "
+        "solutions, threshold 1 on two nodes sharing no property), documents repeating a type triple of a node with three classes "
+        "(nt, tsv_spo), input as raw N-Triples / N-Triples file / raw Turtle / Turtle file (rdflib), user namespaces taking 0..4 of the "
         "default shape prefixes (4: the random prefix is renamed before comparing). A crash is counted in skipped_crashes; a crash "
         "for some seeds only is a finding.")
 
@@ -381,7 +434,8 @@ def run(pid=PID, tier="quick", seed=0, _selftest=None):
     for f in findings:
         by_key.setdefault(f["key"], f)
     out_findings = []
-    for key, f in list(by_key.items())[:MAX_FINDINGS]:
+    # rdflib-backed inputs (hash-ordered triple iteration) last: at most MAX_FINDINGS are listed and must not hide a line-reader finding
+    for key, f in sorted(by_key.items(), key=lambda kf: (":input-turtle" in kf[0], kf[0]))[:MAX_FINDINGS]:
         f = dict(f, input=U.jsonable(f["input"]))
         f["occurrences"] = sum(1 for g in findings if g["key"] == key)
         out_findings.append(f)
@@ -399,7 +453,7 @@ def run(pid=PID, tier="quick", seed=0, _selftest=None):
                       "0..%d junk allocations; %d s timeout per process"
                       % (len(cases), len(_categories()), SIZES[tier][0], len(seeds), seeds, (len(seeds) - 1) * 1500, SUBPROCESS_TIMEOUT),
             "samples": samples, "skipped_crashes": dict(crashes), "findings": out_findings, "undecided": undecided,
-            "distinct_finding_keys": len(by_key), "subprocesses": len(jobs), "wall_s": round(time.time() - t0, 2)}
+            "distinct_finding_keys": len(by_key), "all_finding_keys": sorted(by_key), "subprocesses": len(jobs), "wall_s": round(time.time() - t0, 2)}
 
 
 def replay(doc):
@@ -425,16 +479,20 @@ def _selftest(verbose=True):
     ok = True
     t00 = time.time()
     base = run(PID, "selftest", 0)
-    baseline = set(f["key"] for f in base["findings"])
+    baseline = set(base["all_finding_keys"])
     if verbose:
         print("unpatched tree at selftest size: %d extractions in %d processes, keys %s, undecided %s"
               % (base["evaluations"], base["subprocesses"], sorted(baseline), base["undecided"]))
     ok = ok and not base["undecided"]
     for mode, want, desc in (("order", "C19:shexc-differs:", "runner orders the class profile by hash(str) (VERIF_C19_SELFTEST=order)"),
-                             ("drop", "C19:shacl-not-isomorphic:", "runner drops the class with the smallest hash(str) (VERIF_C19_SELFTEST=drop)")):
+                             ("drop", "C19:shacl-not-isomorphic:", "runner drops the class with the smallest hash(str) (VERIF_C19_SELFTEST=drop)"),
+                             ("shapeset", "C19:shexc-differs:shape-map-", "ClassShexer re-lists the shapes surviving the empty-shape removal "
+                                                                          "from a set difference (VERIF_C19_SELFTEST=shapeset)"),
+                             ("classset", "C19:shexc-differs:repeated-type-", "BaseStrategyMode rebuilds a class list holding a repeated "
+                                                                              "class as list(set(..)) (VERIF_C19_SELFTEST=classset)")):
         t0 = time.time()
         res = run(PID, "selftest", 0, _selftest=mode)
-        new = [f["key"] for f in res["findings"] if f["key"] not in baseline]
+        new = [k for k in res["all_finding_keys"] if k not in baseline]
         hit = any(k.startswith(want) for k in new)
         ok = ok and hit
         if verbose:
